@@ -4,6 +4,7 @@ package main
 
 import (
 	"fmt"
+	"go/token"
 	"go/types"
 	"sort"
 	"strings"
@@ -20,9 +21,9 @@ func propC13() Property {
 			"R1 (writer): the group writer's first field carries the group's own tag and the decimal length of the very slice of entries it then iterates, entries in slice order, members through the template-ordered tag list. " +
 			"R2 (reader count): the template reader derives the expected count from the first field's value; every return that can be a success is reached only under expected == 0 or after the comparison of the number of entries read with the expected count came out equal. " +
 			"R3 (reader entries): a new entry is opened exactly under the delimiter test (the first template item), and appended to the entries before the member is stored, so the delimiter lands in the new entry. " +
-			"R4 (reader members): a member is stored under the tag of the first field of the window it was read from, and the stored window is the one captured before the item consumed its fields (nested groups keep their whole extent). " +
+			"R4 (reader members): a member is stored under the tag of the first field of the window it was read from, and the stored value is the window captured before the item consumed its fields, cut to what the item consumed (window[:len(window)-len(rest)]: one field, or a nested group's whole extent — not everything that follows in the message). " +
 			"R5 (dictionary-guided parser, no field lost): in the group sub-parser every extracted field is placed — appended to the group window, or filed into header/trailer/body — before the next extraction and before any exit; the group window is handed to the body before every exit and before it is replaced by a new window. These are what 'the fields following the group are still found' needs. " +
-			"R6 (sibling agreement): the predicate 'this tag path starts a group' and the function returning the group's member definitions walk the dictionary identically: the one returns true under exactly the conditions under which the other returns a definition list. R7: in the sub-parser a field joins the group window only under a positive membership test of its tag, and the tag path and the member definitions change in step on every way round the loop (where definitions are re-read for a path, the path variable takes that same path; neither changes alone). R8 (shared with C10): setting a group into a field map updates the tag list and the lookup table as a pair (a group set twice must not be written twice). R9: Clone of a group item returns a fresh group with tag and template only (no whole-struct copy, no entries). R10 (shared with C19): the builder constructs every field/group definition for its occurrence; it never returns one from a by-name cache (groups are defined inline per message, the same name has different members in different messages).",
+			"R6 (sibling agreement): the predicate 'this tag path starts a group' and the function returning the group's member definitions walk the dictionary identically: the one returns true under exactly the conditions under which the other returns a definition list. R7: in the sub-parser a field joins the group window only under a positive membership test of its tag, and the tag path and the member definitions change in step on every way round the loop (where definitions are re-read for a path, the path variable takes that same path; neither changes alone). R8 (shared with C10): setting a group into a field map updates the tag list and the lookup table as a pair (a group set twice must not be written twice). R9: Clone of a group item returns a fresh group with tag and template only (no whole-struct copy, no entries). R10 (shared with C19): the builder constructs every field/group definition for its occurrence; it never returns one from a by-name cache (groups are defined inline per message, the same name has different members in different messages). R11: the writer's member lookups are keyed by the entry's own tag list, not by the template; the group setter stores the group on every path (an empty group is a NumInGroup=0 field). R12 (shared with C10): copies and stores transfer the whole field.",
 		NotDecided: "the round-trip equality itself (same entries, fields, values, order) for all templates and layouts; the position-dependent decisions of the dictionary-guided parser (whether a field after a nested group belongs to the parent group); groups of every shipped dictionary.",
 		Rules: []RuleDef{
 			{ID: "C13-R1", Desc: "writer: count field = tag + len of the iterated entries", Min: 3, Run: c13R1},
@@ -35,6 +36,8 @@ func propC13() Property {
 			{ID: "C13-R8", Desc: "a group is set into a field map with paired tag-list / lookup updates (= C10-R1)", Min: 4, Run: c10R1},
 			{ID: "C13-R9", Desc: "a cloned group item is empty (tag and template only)", Min: 1, Run: c13R9},
 			{ID: "C13-R10", Desc: "group definitions are built per occurrence, never reused by name (= C19-R8)", Min: 2, Run: c19R8},
+			{ID: "C13-R11", Desc: "the writer ranges over the entry's own tags; a group is always stored", Min: 2, Run: c13R11},
+			{ID: "C13-R12", Desc: "copies and stores transfer the whole field (= C10-R2)", Min: 1, Run: c10R2},
 		},
 	}
 }
@@ -338,6 +341,38 @@ func c13R4(c *Ctx) {
 		}
 		n++
 		win := stripConv(mu.Value)
+		// the stored value is the part of the captured window that the item consumed:
+		// window[:len(window)-len(rest)], rest being what the item's Read handed back
+		extentOK := false
+		if sl, isSl := win.(*ssa.Slice); isSl && sl.Low == nil && sl.High != nil && stripConv(sl.X) == stripConv(item.Common().Args[0]) {
+			ho := p.Origin(sl.High)
+			if ho.Kind == "phi" {
+				// clamped form: φ{len(window)-len(rest) | 1}
+				var diff *Org
+				okAlts := true
+				for _, a := range ho.Alts {
+					switch {
+					case a.IsConstInt(1):
+					case a.Kind == "binop" && a.Op == token.SUB:
+						diff = a
+					default:
+						okAlts = false
+					}
+				}
+				if okAlts && diff != nil {
+					ho = diff
+				}
+			}
+			if ho.Kind == "binop" && ho.Op == token.SUB && ho.X.IsCallTo("len") && ho.Y.IsCallTo("len") && len(ho.X.Args) == 1 && len(ho.Y.Args) == 1 {
+				xa, ya := ho.X.Args[0], ho.Y.Args[0]
+				if xa.Val != nil && stripConv(xa.Val) == stripConv(item.Common().Args[0]) && ya.Kind == "call" && ya.CallI == item.(ssa.Instruction) && ya.Res == 0 {
+					extentOK = true
+				}
+			}
+			win = stripConv(sl.X)
+		}
+		c.Check(extentOK, name, p.InstrPos(mu), "stored-extent-is-what-the-item-consumed", "the member is stored as window[:len(window)-len(rest)]",
+			"the member is stored with "+p.Origin(mu.Value).String()+", not cut to the fields the item consumed: every entry keeps everything that follows it in the message, so a group that was read and is written again (forwarded into another message) repeats the tail after each member")
 		c.Check(win == stripConv(item.Common().Args[0]), name, p.InstrPos(mu), "window-before-read", "the stored window is the one the item was given (captured before it consumed its fields)",
 			"the member is stored with "+p.Origin(mu.Value).String()+", not with the window the item started reading from: a nested group or the remaining entries are cut off or shifted")
 		ko := p.Origin(mu.Key)
